@@ -10,7 +10,7 @@ func init() {
 		Harnesses: []*HarnessSpec{
 			{Name: "H_C12_small", Tier: "quick", Opts: ei, What: "EI: n=2..4 adds (levels 0), M=2, ef=8: search non-empty, exact k-NN (n<=2M), every vertex reachable on layer 0; k in {1,n}", Covers: []string{"live", "exact-clause"}},
 			{Name: "H_C12_levels", Tier: "quick", Opts: ei, What: "EI: n=2..3 with each node's level draw symbolic (<=1 successful draw per node)", Covers: []string{"live", "exact-clause"}},
-			{Name: "H_C12_remove", Tier: "quick", Opts: ei, What: "EI: n=2..3, Remove any vertex (entry point included), optional Flush, optional later Add: non-empty, exact, reachable", Covers: []string{"live", "exact-clause"}},
+			{Name: "H_C12_remove", Tier: "quick", Opts: ei, What: "EI: n=2..3, Remove any vertex (entry point included), optional Flush, optional later Add of a fresh id or of the removed id itself (update): non-empty, exact, reachable", Covers: []string{"live", "exact-clause"}},
 			{Name: "H_C12_remove2", Tier: "quick", Opts: ei, What: "EI: n=4, two removals of any two vertices with optional Flush after each", Covers: []string{"live", "exact-clause"}},
 			{Name: "H_C12_levels_remove", Tier: "quick", Opts: ei, What: "EI: n=3 with symbolic level draws, 1..2 removals of any vertices, optional Flush, optional later Add (also with a symbolic level): non-empty, exact, reachable", Covers: []string{"live", "exact-clause"}},
 			{Name: "H_C12_remove_all", Tier: "quick", Opts: ei, What: "EI: n=1..3 vertices all removed (no flush), then 1..2 new vectors: non-empty, exact; Flush afterwards: reachable", Covers: []string{"live", "exact-clause"}},
